@@ -128,7 +128,7 @@ impl CaseEngine for C23 {
         args.u64("n", if args.thorough() { 60 } else { 9 }) as usize
     }
     fn case_timeout_s(&self, _args: &Args) -> u64 {
-        900
+        300
     }
     fn run_case(&self, args: &Args, case: usize, rep: &mut Report, _p: &dyn Fn(&str)) {
         let seed = derive(args.u64("seed", 1), &[tag("C23"), case as u64]);
